@@ -19,7 +19,9 @@
 (*    service's back (Reset, ExternalEdit lines): a recorded resolution must   *)
 (*    be the most specific entry existing NOW (ResolvedExistsNow,              *)
 (*    MostSpecificNow) and a plain get must return what is stored NOW          *)
-(*    (PayloadNow).                                                            *)
+(*    (PayloadNow).  A resolution recorded while the harness made existence    *)
+(*    checks of the backend fail (field f: broken file / scripted HTTP 500)    *)
+(*    must fail or name an entry that exists (FaultNeverInventsEntry).         *)
 (***************************************************************************)
 EXTENDS ConfigQuerySvc, Integers, Json, IOUtils
 
@@ -55,8 +57,8 @@ ModelAct ==
     [] Line.ev = "Invalidate" -> Invalidate
     [] Line.ev = "Update"     -> Update(Line.e, Line.parts)
     [] Line.ev = "ExternalEdit" -> ExternalEdit(Line.e, Line.v)
-    [] Line.ev = "Resolve"    -> Resolve(Line.e) /\ out' = Answer
-    [] Line.ev = "GetX"       -> GetX(Line.e) /\ out' = Answer
+    [] Line.ev = "Resolve"    -> Resolve(Line.e, Range(Line.f)) /\ out' = Answer
+    [] Line.ev = "GetX"       -> GetX(Line.e, Range(Line.f)) /\ out' = Answer
     [] OTHER -> FALSE
 
 Matched == TablesOk /\ ModelAct
@@ -64,7 +66,8 @@ Matched == TablesOk /\ ModelAct
 LineReq == [op |-> Line.ev,
             e |-> IF "e" \in DOMAIN Line THEN Line.e ELSE "",
             vars |-> IF Line.ev = "Process" THEN Line.vars ELSE <<>>,
-            parts |-> <<>>]
+            parts |-> <<>>,
+            f |-> IF "f" \in DOMAIN Line THEN Range(Line.f) ELSE {}]
 
 MonitorStep ==
   LET c2 == IF Line.ev = "Update" THEN [mcontent EXCEPT ![Line.e] = Line.parts] ELSE mcontent
@@ -80,9 +83,11 @@ MonitorStep ==
      /\ nviol' = nviol
           + Soft("RequestLocal", judged => Answer = Expected(mcontent, mstore, LineReq, FALSE),
                  <<cause, Line.ev, IF "e" \in DOMAIN Line THEN Line.e ELSE "", LineReq.vars>>)
-          + Soft("ResolvedExistsNow", Line.ev = "Resolve" => ResolvedExists(XQ(Line.e), Existing(mstore), rr), what)
-          + Soft("MostSpecificNow", Line.ev = "Resolve" => MostSpecific(XQ(Line.e), Existing(mstore), rr), what)
-          + Soft("PayloadNow", Line.ev = "GetX" => Answer = Expected(mcontent, mstore, LineReq, FALSE), what)
+          + Soft("ResolvedExistsNow", Line.ev = "Resolve" /\ LineReq.f = {} => ResolvedExists(XQ(Line.e), Existing(mstore), rr), what)
+          + Soft("MostSpecificNow", Line.ev = "Resolve" /\ LineReq.f = {} => MostSpecific(XQ(Line.e), Existing(mstore), rr), what)
+          + Soft("FaultNeverInventsEntry",
+                 Line.ev = "Resolve" /\ LineReq.f # {} => ResolvedExists(XQ(Line.e), Existing(mstore), rr), what)
+          + Soft("PayloadNow", Line.ev = "GetX" => Acceptable(mcontent, mstore, LineReq, FALSE, Answer), what)
 
 TStepOk ==
   /\ l <= Len(Trace) /\ IsCall /\ mode = "ok"
@@ -106,7 +111,7 @@ TReset ==
   /\ l <= Len(Trace) /\ Line.ev = "Reset"
   /\ content' = [e \in Entries |-> Line.content[e]]
   /\ compiled' = [e \in Entries |-> NoSnap]
-  /\ store' = [k \in Keys |-> Line.store[k]] /\ tree' = [k \in Keys |-> Line.store[k]]
+  /\ store' = [k \in Keys |-> Line.store[k]] /\ tree' = [k \in Keys |-> Line.store[k]] /\ backend' = Line.backend
   /\ dirty' = FALSE /\ req' = NoReq /\ out' = Nothing /\ n' = 0
   /\ mode' = "ok" /\ scn' = Line.scn
   /\ mcontent' = [e \in Entries |-> Line.content[e]] /\ mdirty' = FALSE /\ mstore' = [k \in Keys |-> Line.store[k]]
